@@ -248,6 +248,7 @@ def run(db, cx):
     driver_length_coherent(db, cx)
     substep_bounded(db, cx)
     accept_threshold(db, cx)
+    options_stored(db, cx)
 
 
 DRS = "f:" + C + "DriverResult::state"
@@ -429,6 +430,44 @@ def accept_threshold(db, cx):
               why="below this length the propagator accepts a boundary hit with the momentum of the "
                   "end of the full trial sub-step; a larger threshold (e.g. the bump distance) rotates "
                   "the direction by a sub-step that was not travelled: the end point leaves the helix")
+
+
+def options_stored(db, cx):
+    """C08.9 (seeded change c08f): the FieldDriverOptions that were validated are the ones the
+    propagator is later built from: every params data record with a FieldDriverOptions member has
+    that member assigned from the validated input options in the constructor that validates them."""
+    n = 0
+    for rname, rec in sorted(db.records.items()):
+        if not rname.startswith(C) or "Data" not in rname:
+            continue
+        for fld in rec.get("fields", []):
+            ty = (fld.get("ty") or "") + " " + (fld.get("cty") or "")
+            if "FieldDriverOptions" not in ty:
+                continue
+            leaf = "f:%s::%s" % (rname, fld["n"])
+            base = rname.replace("Data", "").rstrip(":")
+            ctors = [f for nm in db.find("^" + base.replace("(", r"\(").replace(")", r"\)") + r"::[A-Za-z_0-9]+$")
+                     for f in db.get(nm) if f.name.split("::")[-1] == base.split("::")[-1]
+                     and f.has_call(C + "validate_input")]
+            if not ctors:
+                continue
+            for f in ctors:
+                vals = [e["args"][0] for (_b, _i, e) in f.events("call") if e["callee"] == C + "validate_input"
+                        and e.get("args")]
+                vref = set(r for a in vals for r in a.get("refs", []) if r.startswith("F:"))
+                bodies = [f] + [g for nm2 in db.find("^" + f.name.replace("(", r"\(").replace(")", r"\)") + r"::\(lambda")
+                                for g in db.get(nm2)]        # immediately invoked lambdas of the constructor
+                ws = [e for g in bodies for (_b, _i, e) in g.events("write")
+                      if (e.get("path") or {}).get("chain", [None])[-1] == leaf]
+                ok = bool(ws) and all(set(r for r in e.get("refs", []) if r.startswith("F:")) & vref for e in ws)
+                n += 1
+                cx.ob("C08.9-options-stored", "%s stores the validated driver options in %s::%s" % (
+                    base.split("::")[-1], rname.split("::")[-1], fld["n"]), ok,
+                    "; ".join("%s = %s" % (e.get("lhs"), e.get("rhs")) for e in ws) or "never assigned", short(f.loc),
+                    why="the propagator of this field is built from the stored options; if they stay "
+                        "default-constructed the configured substep budget and chord / intersection "
+                        "tolerances are silently ignored")
+    cx.floor("params records that carry FieldDriverOptions", n, 1)
 
 
 def driver_length_coherent(db, cx):
